@@ -10,6 +10,8 @@
 //!   `repo <namehex>`                 a directory of that name, `Repository::from_existing_expansion` -> none/some
 //!   `gd <tree> <op> <pathhex>`       synthetic installation (`rel/path:hex;rel/dir/:-;…`), GameData
 //!                                    from_existing + exists/extract -> ok
+//!   `gd2 <tree> <tree2> <op> <pathhex>` fault sequence between open and read: query, apply tree2
+//!                                    (overwrites, `=/` directories, `=!` deletions), query again -> ok
 //!   `leak <n> <dat hex> <offset>`    n failed extractions; residual live heap must not grow with n
 #![allow(unused)]
 use crate::alloc;
@@ -24,6 +26,43 @@ fn resident_bytes() -> usize {
         .and_then(|s| s.split_whitespace().nth(1).and_then(|x| x.parse::<usize>().ok()))
         .map(|p| p * 4096)
         .unwrap_or(0)
+}
+
+/// writes a tree description (`<hexpath>=<hexcontent>` files, `=/` directories, `=!` deletions, comma
+/// separated, `-` = nothing) under `game`; returns the number of content bytes
+fn materialise(game: &std::path::Path, tree: &str) -> Option<usize> {
+    use std::os::unix::ffi::OsStrExt;
+    let mut total = 0usize;
+    if tree == "-" {
+        return Some(0);
+    }
+    for ent in tree.split(',') {
+        let (ph, ch) = ent.split_once('=')?;
+        let pb = unhex(ph)?;
+        if pb.is_empty() || pb.contains(&0) || pb.starts_with(b"/") {
+            return None;
+        }
+        let p = game.join(std::ffi::OsStr::from_bytes(&pb));
+        if ch == "/" {
+            let _ = std::fs::remove_file(&p);
+            std::fs::create_dir_all(&p).ok()?;
+        } else if ch == "!" {
+            if std::fs::remove_file(&p).is_err() {
+                let _ = std::fs::remove_dir_all(&p);
+            }
+        } else {
+            let cb = unhex(ch)?;
+            total += cb.len();
+            if let Some(parent) = p.parent() {
+                let _ = std::fs::create_dir_all(parent);
+            }
+            if p.is_dir() {
+                let _ = std::fs::remove_dir_all(&p);
+            }
+            std::fs::write(&p, &cb).ok()?;
+        }
+    }
+    Some(total)
 }
 
 fn write_file(dir: &std::path::Path, rel: &str, bytes: &[u8]) -> std::path::PathBuf {
@@ -112,35 +151,53 @@ pub fn run(f: &[&str]) -> Option<String> {
                 })
             }))
         }
-        ("gd", 4) => {
-            use std::os::unix::ffi::OsStrExt;
-            let td = TempDir::new("c18gd");
+        ("gd2", 5) => {
+            // fault sequence between open and read: materialise the first tree, open the game data and
+            // run the query (index files get cached), apply the second tree (`=!` deletes), query again
+            let td = TempDir::new("c18gd2");
             let game = td.path().join("game");
-            let mut total = 0usize;
-            if f[1] != "-" {
-                for ent in f[1].split(',') {
+            let Some(total) = materialise(&game, f[1]) else { return Some("bad-case".into()) };
+            let Some(q) = unhex(f[4]) else { return Some("bad-case".into()) };
+            let Ok(q) = String::from_utf8(q) else { return Some("bad-case".into()) };
+            let op = f[3].to_string();
+            if op != "exists" && op != "extract" {
+                return Some("bad-case".into());
+            }
+            // validate the second tree before running anything
+            if f[2] != "-" {
+                for ent in f[2].split(',') {
                     let Some((ph, ch)) = ent.split_once('=') else { return Some("bad-case".into()) };
-                    let Some(pb) = unhex(ph) else { return Some("bad-case".into()) };
-                    if pb.is_empty() || pb.contains(&0) || pb.starts_with(b"/") {
+                    if unhex(ph).is_none() || !(ch == "/" || ch == "!" || unhex(ch).is_some()) {
                         return Some("bad-case".into());
-                    }
-                    let p = game.join(std::ffi::OsStr::from_bytes(&pb));
-                    if ch == "/" {
-                        if std::fs::create_dir_all(&p).is_err() {
-                            return Some("bad-case".into());
-                        }
-                    } else {
-                        let Some(cb) = unhex(ch) else { return Some("bad-case".into()) };
-                        total += cb.len();
-                        if let Some(parent) = p.parent() {
-                            let _ = std::fs::create_dir_all(parent);
-                        }
-                        if std::fs::write(&p, &cb).is_err() {
-                            return Some("bad-case".into());
-                        }
                     }
                 }
             }
+            let gs = game.to_str().unwrap().to_string();
+            let second = f[2].to_string();
+            let game2 = game.clone();
+            Some(alloc::measured(total + second.len() / 2, move || {
+                guarded(move || {
+                    let Some(mut g) = physis::gamedata::GameData::from_existing(physis::common::Platform::Win32, &gs) else {
+                        return "ok".into();
+                    };
+                    let ask = |g: &mut physis::gamedata::GameData| {
+                        if op == "exists" {
+                            let _ = g.exists(&q);
+                        } else {
+                            let _ = g.extract(&q);
+                        }
+                    };
+                    ask(&mut g);
+                    let _ = materialise(&game2, &second);
+                    ask(&mut g);
+                    "ok".into()
+                })
+            }))
+        }
+        ("gd", 4) => {
+            let td = TempDir::new("c18gd");
+            let game = td.path().join("game");
+            let Some(total) = materialise(&game, f[1]) else { return Some("bad-case".into()) };
             let Some(q) = unhex(f[3]) else { return Some("bad-case".into()) };
             let Ok(q) = String::from_utf8(q) else { return Some("bad-case".into()) };
             let op = f[2].to_string();
@@ -654,6 +711,44 @@ fn gen_gd(rng: &mut Rng, thorough: bool, out: &mut dyn Write) {
         let mut t = base(Some(&idx), Some(&idx2), None);
         t.push((b"sqpack/ffxiv/0a0000.win32.dat0".to_vec(), None));
         emit_gd(out, &t, q);
+    }
+    // fault sequences between open and read: the first query caches the index, then files change
+    {
+        let t1 = base(Some(&idx), Some(&idx2), Some(&dat));
+        let datp = b"sqpack/ffxiv/0a0000.win32.dat0".to_vec();
+        let idxp = b"sqpack/ffxiv/0a0000.win32.index".to_vec();
+        let mut seqs: Vec<Vec<(Vec<u8>, Option<Option<Vec<u8>>>)>> = vec![
+            vec![(datp.clone(), None)],                                   // dat deleted
+            vec![(datp.clone(), Some(Some(vec![])))],                      // dat emptied
+            vec![(datp.clone(), Some(None))],                              // dat becomes a directory
+            vec![(idxp.clone(), None)],                                    // index deleted (cached copy stays)
+            vec![(idxp.clone(), Some(Some(idx[..1500].to_vec())))],        // index truncated
+            vec![(b"sqpack/ffxiv".to_vec(), None)],                        // repository directory removed
+            vec![(b"sqpack".to_vec(), None)],
+        ];
+        let mut cuts: Vec<usize> = sd.bounds.clone();
+        cuts.extend(md.bounds.iter().map(|b| b + model_at as usize));
+        for c in cuts {
+            if c < dat.len() {
+                seqs.push(vec![(datp.clone(), Some(Some(dat[..c].to_vec())))]);
+            }
+        }
+        for sq in seqs {
+            let second = sq
+                .iter()
+                .map(|(p, c)| match c {
+                    None => format!("{}=!", hex(p)),
+                    Some(None) => format!("{}=/", hex(p)),
+                    Some(Some(c)) => format!("{}={}", hex(p), hex(c)),
+                })
+                .collect::<Vec<_>>()
+                .join(",");
+            for q in ["exd/root.exl", "exd/model.mdl"] {
+                for op in ["exists", "extract"] {
+                    writeln!(out, "gd2 {} {} {} {}", tree_line(&t1), second, op, hex(q.as_bytes())).unwrap();
+                }
+            }
+        }
     }
     // truncations of index and dat at structure boundaries, block-header field corruptions
     let ib = index_file(&[("exd/root.exl", 0, 128), ("exd/model.mdl", 0, model_at)], false);
